@@ -159,6 +159,9 @@ FormsClauses(e) ==
 Clauses(e) ==
    CASE e.ev = "ideal" -> IdealClauses(e)
      [] e.ev = "forms" -> FormsClauses(e)
+     \* edit history on one live object (a and/or b assigned between calls): each step is a `vdw`
+     \* line judged on the CURRENT parameters, followed by this line comparing it with a fresh object
+     [] e.ev = "edit" -> Fails(AllSame(e.pairs), "EditedEqualsFresh")
      [] e.ev = "arr" -> ArrClauses(e)
      [] e.ev = "vdw" -> VdwClauses(e)
      [] e.ev = "crit" -> CritClauses(e)
